@@ -4,7 +4,7 @@ import subprocess
 import typing
 
 from pygopherd import gopherentry
-from pygopherd.handlers.base import BaseHandler
+from pygopherd.handlers.base import BaseHandler, has_fileno
 
 
 class CompressedGopherEntry(gopherentry.GopherEntry):
@@ -80,4 +80,17 @@ class CompressedFileHandler(FileHandler):
     def write(self, wfile):
         decompprog = self.decompressors[self.getentry().realencoding]
         with self.vfs.open(self.getselector(), "rb") as fp:
-            subprocess.run([decompprog], stdin=fp, stdout=wfile)
+            if (
+                self.protocol.check_tls()
+                or not has_fileno(fp)
+                or not has_fileno(wfile)
+            ):
+                # The child cannot be given the descriptors directly: the
+                # output is wrapped in TLS or is an in-memory buffer (WAP
+                # conversion), or the input is a ZIP member.
+                resp = subprocess.run(
+                    [decompprog], input=fp.read(), capture_output=True
+                )
+                wfile.write(resp.stdout)
+            else:
+                subprocess.run([decompprog], stdin=fp, stdout=wfile)
